@@ -13,8 +13,10 @@ mod alloc;
 mod codec;
 mod families;
 mod hcsim;
+mod hostile;
 mod model;
 mod payload;
+mod rate14;
 mod util;
 mod wire;
 
@@ -224,6 +226,15 @@ fn run_scenario(family: &str, seed: u64, idx: u64, params: &Params) -> ScnOut {
             out.violations = r.violations;
             out.sigs = r.sigs.into_iter().collect();
             out.samples = r.samples;
+        }
+        "hostile-hc" => {
+            hostile::run_batch(scn_seed, params, &mut out, false);
+        }
+        "hostile-rx" => {
+            hostile::run_batch(scn_seed, params, &mut out, true);
+        }
+        "srcomp" => {
+            rate14::run_batch(scn_seed, params, &mut out);
         }
         _ => {
             if !families::run_family(family, scn_seed, idx, params, &mut out) {
